@@ -74,6 +74,6 @@ META = dict(
          "correspondence on generated series with wet, near-empty and empty spells reaching every branch tag); real "
          "arithmetic instead of IEEE; the two fine-sediment repairs are modelled as applied.",
     technique="Lean 4 proof (one-step algebraic identity + induction through scan; generalize/linear_combination) "
-              "+ differential correspondence + budget oracle on implementation outputs",
+              "+ differential correspondence + budget oracle on implementation outputs + model regenerated from the Go source on every run by a translator (gen_eq_* theorems tie it to the hand-written model) + inequality clauses re-proved for every monotone rounding (RNum)",
 )
 READY = True
